@@ -87,14 +87,16 @@ RECURSIVE DivMr(_,_,_,_)
 DivMr(a, b, i, rem) ==
   IF i = 0 THEN << <<>>, rem >>
   ELSE LET r1   == NormM(<<a[i]>> \o rem)
-           d    == QDig(r1, b, 0, B-1)
+           d    == IF CmpM(r1, b) < 0 THEN 0 ELSE QDig(r1, b, 1, B-1)   \* (most digits of a Euclid round)
            r2   == SubM(r1, MulD(b, d))
            rest == DivMr(a, b, i-1, r2)
        IN << rest[1] \o <<d>>, rest[2] >>
 DivModM(a, b) == LET r == DivMr(a, b, Len(a), <<>>) IN << NormM(r[1]), r[2] >>
 
-RECURSIVE GcdM(_,_)
-GcdM(a, b) == IF b = <<>> THEN a ELSE GcdM(b, DivModM(a, b)[2])
+\* Euclid, as a recursive function: TLC evaluates the argument of a function application once, before
+\* the call (the arguments of a RECURSIVE operator are passed unevaluated; measured 2-3 times slower here)
+GcdF[p \in Seq(Nat) \X Seq(Nat)] == IF p[2] = <<>> THEN p[1] ELSE GcdF[<<p[2], DivModM(p[1], p[2])[2]>>]
+GcdM(a, b) == GcdF[<<a, b>>]
 
 \* division of a magnitude by a small positive native integer d (d*B fits an int):
 \* <<quotient, remainder as native int>>
